@@ -393,6 +393,10 @@ func traceToCase(spec *PipeSpec, res *PipeResult, evs []pevent, status string) (
 					out = append(out, fmt.Sprintf("GDel %d", sid))
 				}
 			}
+		case "fin.captured":
+			if sid, ok := sidOf[id]; ok && len(e.fields) >= 3 {
+				out = append(out, fmt.Sprintf("GCapt %d %s %s", sid, e.fields[1], e.fields[2]))
+			}
 		default:
 			if k, ok := hookNo[e.kind]; ok {
 				if sid, isSeed := sidOf[id]; isSeed && !dropped[id] && ids[id] != nil {
@@ -485,6 +489,8 @@ func genPipe(r *Rng, i int, tier string) string {
 	s := fmt.Sprintf("site=%d w=%d mca=%d sched=%d seeds=%d mr=%d retry=%d", r.U64()%1000000, w, mca, r.U64()%1000, seeds, r.Intn(4), r.Intn(2))
 	if r.Chance(15) {
 		s += " mode=adversarial"
+	} else if r.Chance(15) {
+		s += " mode=bodies" // sizes around the sniff window and the 2 MiB spool threshold, empty bodies, gzip, chunked
 	}
 	if r.Chance(20) {
 		s += " async=1"
